@@ -483,7 +483,9 @@ func (e *Exec) register(i int, cancelAtOnce bool) {
 			}
 		}
 		if e.anyParked() || e.anyHeld() {
-			e.W.SettleUntil(isDone)
+			// returns as soon as the call has returned; the cap (10 s of real time) only matters on an
+			// overloaded machine, where 100 ms is not enough for a runnable goroutine to be scheduled
+			e.W.SettleUntilCap(isDone, 50000)
 		} else {
 			synctest.Wait()
 		}
